@@ -77,6 +77,8 @@ type K9 struct {
 	c          *Ctx
 	Kinds      []MirrorKind
 	Commit     []string          // calls whose good edge commits the batch (kills all dirt)
+	canFail    map[*ssa.Function]bool // summarised function has a feasible failing exit (least fixpoint)
+	sawFail    bool
 	Infallible map[string]string // callee spec -> reason: its failing edge is infeasible for the values passed
 	FailMarker func(fn *ssa.Function, ret *ssa.Return) (isFail bool, known bool)
 	fns        []*ssa.Function
@@ -88,7 +90,7 @@ type K9 struct {
 }
 
 func (c *Ctx) NewK9(pkgs []string, kinds []MirrorKind, commit []string, infallible map[string]string) *K9 {
-	k := &K9{c: c, Kinds: kinds, Commit: commit, Infallible: infallible, sumFail: map[*ssa.Function]kset{}, sumSucc: map[*ssa.Function]kset{}, keepFail: map[*ssa.Function]kset{}, keepSucc: map[*ssa.Function]kset{}, where: map[*ssa.Function]map[string]string{}}
+	k := &K9{c: c, Kinds: kinds, Commit: commit, Infallible: infallible, canFail: map[*ssa.Function]bool{}, sumFail: map[*ssa.Function]kset{}, sumSucc: map[*ssa.Function]kset{}, keepFail: map[*ssa.Function]kset{}, keepSucc: map[*ssa.Function]kset{}, where: map[*ssa.Function]map[string]string{}}
 	for _, fn := range c.P.AllFns {
 		if fn.Pkg == nil || len(fn.Blocks) == 0 {
 			continue
@@ -107,10 +109,14 @@ func (c *Ctx) NewK9(pkgs []string, kinds []MirrorKind, commit []string, infallib
 		k.keepSucc[fn] = k.allIn()
 		k.where[fn] = map[string]string{}
 	}
-	for round := 0; round < 12; round++ {
+	for round := 0; round < 30; round++ {
 		changed := false
 		for _, fn := range k.fns {
 			fail, succ, _ := k.analyse(fn, nil)
+			if k.sawFail && !k.canFail[fn] {
+				k.canFail[fn] = true
+				changed = true
+			}
 			kf, ks := kset{}, kset{}
 			f2, s2 := kset{}, kset{}
 			for x := range fail {
@@ -233,6 +239,10 @@ func (k *K9) analyse(fn *ssa.Function, report *[]k9Exit) (fail, succ kset, sites
 				if Callee(ci.Common()).Match(spec) {
 					infallible = true
 				}
+			}
+			if summarised && !isCommit && !k.canFail[callee] {
+				// every failing exit of the callee hangs on an infallible callee (or on itself): it cannot fail either
+				infallible = true
 			}
 			if !isCommit && !summarised && !infallible {
 				continue
@@ -385,6 +395,7 @@ func (k *K9) analyse(fn *ssa.Function, report *[]k9Exit) (fail, succ kset, sites
 	}
 	fail, succ = kset{}, kset{}
 	vs := sigOf(fn.Signature)
+	k.sawFail = false
 	for _, ret := range Returns(fn) {
 		st, ok := in[ret.Block()]
 		if !ok {
@@ -406,6 +417,7 @@ func (k *K9) analyse(fn *ssa.Function, report *[]k9Exit) (fail, succ kset, sites
 			delete(st, "in:"+kd)
 		}
 		if isFail {
+			k.sawFail = true
 			fail.addAll(st)
 		} else {
 			succ.addAll(st)
